@@ -3,6 +3,8 @@
   against `lex`, and running `lex` to the EOF token (`lexAll` of Drv/LexOps.lean) on both sides.
 -/
 import ModVerif.Proofs.TieFnLexB
+set_option linter.unusedSimpArgs false
+set_option linter.unusedVariables false
 namespace ModVerif.TieFnLex
 open ModVerif ModVerif.GoRt ModVerif.GoRtStr ModVerif.GoRtModfile ModVerif.GoRtLex ModVerif.Modfile
 open ModVerif.Proofs.ModfileLex (eof_false_iff)
@@ -239,5 +241,18 @@ theorem lexAll_wf : ∀ (n : Nat) (i : Input) (acc : List Token), WF i → ∀ {
       split at h
       · cases h; exact hwj
       · exact ih j (t :: acc) hwj h
+
+/-! ### the printers of Drv/LexOps.lean agree on embedded values (an `Int.ofNat n` prints as `n`) -/
+
+theorem showPos_emb (p : Position) : Drv.LexOps.G.showPos (embPos p) = Drv.LexOps.M.showPos p := rfl
+theorem showTok_emb (t : Token) : Drv.LexOps.G.showTok (embTok t) = Drv.LexOps.M.showTok t := rfl
+theorem showComment_emb (c : Comment) : Drv.LexOps.G.showComment (embComment c) = Drv.LexOps.M.showComment c := rfl
+
+theorem map_showTok_emb (ts : List Token) : (ts.map embTok).map Drv.LexOps.G.showTok = ts.map Drv.LexOps.M.showTok := by
+  rw [List.map_map]; rfl
+
+theorem map_showComment_emb (cs : List Comment) :
+    (cs.map embComment).map Drv.LexOps.G.showComment = cs.map Drv.LexOps.M.showComment := by
+  rw [List.map_map]; rfl
 
 end ModVerif.TieFnLex
